@@ -61,6 +61,14 @@ var configs = map[string]propCfg{
 		Thorough:   tierCfg{BudgetS: 900, Chunk: 150, MaxRuns: 5000000},
 		Assume:     assumeAll, Real: realAll, Stub: stubAll,
 	},
+	"C07": {
+		Level:      "fault_enumeration",
+		Rule:       "For each sampled history (6-30 sequential writes over <=6 keys inside the prefix, inside skipped prefixes and outside the prefix; multi-version keys, tombstones, re-created keys; prefix/skipped-prefix configurations none/one/two/nested/sibling) and compaction revision R, 48 variants are executed: no fault; the k-th compaction delete (k=1..8) failing with each of {definite error, unknown-outcome applied, unknown-outcome lost, lost compare-and-delete}; the compacting node crashing after its k-th delete (k=1..8) with a fresh node taking over; random multiple delete failures; 1-2 writers (create/update/delete/compact) racing the compactor under seeded schedules. Afterwards Get and List at every revision in [R_eff, committed] (up to 14) and at 0 are compared with an MVCC model that ignores compaction, a second compaction is run and reads are verified again, and every key is written with normal semantics; the ground truth is scanned for deletes outside the configured ranges or forbidden by the rules.",
+		NonTrivial: "the compaction really deleted at least one record.",
+		Quick:      tierCfg{BudgetS: 45, Chunk: 96, MaxRuns: 400000},
+		Thorough:   tierCfg{BudgetS: 900, Chunk: 96, MaxRuns: 5000000},
+		Assume:     assumeAll, Real: realAll, Stub: stubAll,
+	},
 }
 
 // expectedProbes lists the reach probes whose absence is reported as a coverage gap.
@@ -70,5 +78,6 @@ var expectedProbes = map[string][]string{
 	"C04": {"later-allocated-write-finished-first", "drift-back"},
 	"C05": {"registration-raced-with-write", "start-inside-history", "cache-wrapped", "watch-refused", "subscriber-dropped", "events-delivered"},
 	"C06": {"compared-with-events-applied", "compaction-overlapped-watch"},
+	"C07": {"compaction-deleted-records", "compaction-delete-failed", "skip-after-failure-engaged", "compactor-crashed", "second-compaction", "compare-and-delete-lost-to-concurrent-write"},
 	"C03": {"read-at-historical-revision", "limit-cut-result", "compaction-before-reread"},
 }
